@@ -23,7 +23,7 @@ ASSUMPTIONS = ['io.TextIOBase.read(n) may return fewer than n characters; only a
                'path sources are restricted to ASCII text (the reader opens files as ASCII by design)']
 REQUIRED_COUNTERS = ['texts', 'reads', 'segments-compared', 'straddling-segments', 'sources:path', 'sources:file', 'sources:short-reads', 'roundtrips',
                      'expected:leading-blank', 'expected:trailing-sep', 'texts:long-segment', 'texts:empty-segment']
-MIN_CASES = {'quick': 1500, 'thorough': 30000}
+MIN_CASES = {'quick': 1300, 'thorough': 30000}
 
 CHUNKS = [1, 7, 105, 106, 107, 4096, 8191, 8192, 8193]
 IDS = ['NM1', 'N3', 'REF', 'HL', 'CLM', 'SV1', 'DTP', 'K3', 'B2A', 'LX', 'AK4', 'ZZ', 'X12']
